@@ -215,6 +215,13 @@ fn run_with<'a, T: IteTable<'a, BddPtr<'a>> + Default>(b: &'a RobddBuilder<'a, T
     Ok(())
 }
 
+fn build_all<'a>(b: &'a RobddBuilder<'a, AllIteTable<BddPtr<'a>>>, n0: usize) -> Vec<BddPtr<'a>> {
+    let vs: Vec<BddPtr> = (0..n0).map(|l| b.var(VarLabel::new(l as u64), true)).collect();
+    let mut out = vs.clone();
+    for i in 0..n0 { for j in 0..n0 { out.push(b.and(vs[i], vs[j])); out.push(b.or(vs[i], vs[j].neg())); out.push(b.xor(vs[i], vs[j])); } }
+    out
+}
+
 /// variables added at run time: new_var on a builder with a (possibly non-linear) order, then operations over old and new variables
 fn run_newvar(c: &Value) -> CaseResult {
     let order: Vec<VarLabel> = c["order"].as_array().map(|a| a.iter().map(|v| VarLabel::new(v.as_u64().unwrap_or(0))).collect()).unwrap_or_default();
@@ -238,6 +245,18 @@ fn run_newvar(c: &Value) -> CaseResult {
         if eval(g, &a) != (fv && (a[n0] == pol)) { return Err(format!("and(f, new variable) wrong on {:?}", a)); }
         let w = |x: bool| (fv && (x == pol)) == a[0];
         if eval(h, &a) != (w(true) || w(false)) { return Err(format!("exists over the new variable wrong on {:?}", a)); }
+    }
+    // canonicity across the extension: the same functions requested again after new_var (and after a second new_var)
+    // must be the same pointers as before
+    if c["shape"].as_bool().unwrap_or(true) {
+        let before = { let mut v = old.clone(); for i in 0..n0 { for j in 0..n0 { v.push(b.and(old[i], old[j])); v.push(b.or(old[i], old[j].neg())); v.push(b.xor(old[i], old[j])); } } v };
+        let after1 = build_all(&b, n0);
+        let _ = b.new_var(!pol);
+        let after2 = build_all(&b, n0);
+        for (k, x) in before.iter().enumerate() {
+            if !b.eq(*x, after1[k]) { return Err(format!("[canonicity] function {k} built before new_var and again after it: same function, eq() says different")); }
+            if !b.eq(*x, after2[k]) { return Err(format!("[canonicity] function {k} built before new_var and again after a second new_var: same function, eq() says different")); }
+        }
     }
     if !c["shape"].as_bool().unwrap_or(true) { return Ok(()); }
     shape(g, b.order(), None).map_err(|e| format!("[canonicity] after new_var: {e}"))
